@@ -56,6 +56,12 @@ func cmdMemofacts(args []string) error {
 			return true
 		})
 	}
+	// the time bounds are printed as instants: every `.Format(` in String() is applied to `….UTC()` and asks for nanoseconds
+	boundsAsInstants := false
+	if fd := st.fn("*LookupOptions", "String"); fd != nil {
+		body := st.str(fd.Body)
+		boundsAsInstants = strings.Count(body, ".Format(") > 0 && strings.Count(body, ".Format(") == strings.Count(body, ".UTC().Format(time.RFC3339Nano)")
+	}
 	uuidFromString := false
 	if fd := st.fn("*LookupOptions", "UUID"); fd != nil {
 		uuidFromString = strings.Contains(st.str(fd.Body), "l.String()")
@@ -170,6 +176,7 @@ func cmdMemofacts(args []string) error {
 	fmt.Fprintf(&b, "/-- Fields of storage.LookupOptions. -/\ndef lookupOptionFields : List String := %s\n\n", q(fields))
 	fmt.Fprintf(&b, "/-- Fields that LookupOptions.String() prints (the UUID of the options is the hash of that text). -/\ndef cacheKeyFields : List String := %s\n\n", q(keyFields))
 	fmt.Fprintf(&b, "def optionsUUIDFromString : Bool := %v\n\n", uuidFromString)
+	fmt.Fprintf(&b, "/-- LookupOptions.String() prints its time bounds in UTC with nanoseconds: one text per instant. -/\ndef optionsBoundsAsInstants : Bool := %v\n\n", boundsAsInstants)
 	b.WriteString("/-- Memoizing methods: name, parameters (without context and result channel), parts of the key. -/\ndef memoMethods : List (String × List String × List String) := [\n")
 	for i, m := range meths {
 		sep := ","
